@@ -27,9 +27,35 @@ def processCase (cfg : ParseCfg) (c : Case) : Array String := Id.run do
   let mut hs : Array HState := Array.replicate 4 {}
   let mut sigs : Array (String × String × Nat) := #[]   -- (key, signature, op)
   let mut epoch : Nat := 0                                -- changes with every create/def/free
+  let mut prevFired : Int := 0
+  let mut poisoned : List Nat := []      -- objects that went through an injected allocation failure
   for o in c.ops do
     let h := o.h
     let st := getH hs h
+    let fired := match o.first "lib" with | some ws => kvInt ws "fired" | none => prevFired
+    let failedHere := fired > prevFired && fired != -999
+    if fired != -999 then prevFired := fired
+    if failedHere then
+      -- C17: a single failing internal allocation: NULL / YAEP_NO_MEMORY, nothing else
+      match o.cmd with
+      | "create" =>
+        out := out.v cid o.n "C17" "K" ((o.first "create") == some ["null"]) s!"create under allocation failure: {o.first "create"}"
+        hs := setH hs h {}
+      | "def" | "descr" =>
+        let obs := (o.first "def").getD []
+        out := out.v cid o.n "C17" "K" (kvInt obs "rc" == 1 && kvInt obs "code" == 1) s!"definition under allocation failure: rc={kvInt obs "rc"} code={kvInt obs "code"}"
+        poisoned := h :: poisoned
+      | "parse" =>
+        let obs := (o.first "parse").getD []
+        out := out.v cid o.n "C17" "K" (kvInt obs "rc" == 1 && kvInt obs "code" == 1 && (kv obs "root") == some "null")
+          s!"parse under allocation failure: rc={kvInt obs "rc"} code={kvInt obs "code"} root={kv obs "root"}"
+        poisoned := h :: poisoned
+      | "free" =>
+        out := out.v cid o.n "C17" "K" false "allocation during yaep_free_grammar"
+      | _ => out := out.s cid s!"op {o.n} allocation failure in {o.cmd}"
+    else if poisoned.contains h && o.cmd != "free" && o.cmd != "create" then
+      out := out.s cid s!"op {o.n} skipped (object after allocation failure)"
+    else
     if o.obs.isEmpty then
       out := out.s cid s!"op {o.n} no observation"
     else if !(o.get "nohandle").isEmpty then
@@ -73,6 +99,8 @@ def processCase (cfg : ParseCfg) (c : Case) : Array String := Id.run do
       out := out.v cid o.n "C15" "K" (code == st.lastErr) s!"error_code={code} expected={st.lastErr}"
     | "free" =>
       epoch := epoch + 1
+      poisoned := poisoned.filter (· != h)
+      if !(o.get "free").isEmpty then out := out.v cid o.n "C17" "K" true "free ok"
       hs := setH hs h {}
     | "freetree" =>
       match o.first "freetree" with
